@@ -375,15 +375,30 @@ pub fn run_case(i: usize, rng: &mut impl RngCore, thorough: bool) -> Outcome {
                 return o;
             };
             let other_prm = params(n, cap, 1 + (ds + i) % 6);
-            let use_prm = if i % 4 == 0 { other_prm } else { case.params() };
-            let cs: Vec<P> = if i % 5 == 0 { commitments.clone() } else { case.commitments.clone() };
+            let use_prm = if (i / 10) % 4 == 0 { other_prm } else { case.params() };
+            let cs: Vec<P> = match (i / 10) % 6 {
+                0 => commitments.clone(),
+                1 => {
+                    // the honest commitments with one of them replaced by the identity
+                    let mut c = case.commitments.clone();
+                    c[(i / 60) % m] = P::identity();
+                    c
+                },
+                2 => vec![P::identity(); m],
+                3 => {
+                    // the same commitment at every position
+                    vec![case.commitments[0].clone(); m]
+                },
+                _ => case.commitments.clone(),
+            };
             let Ok(st2) = RangeStatement::init(use_prm, cs, promises.clone(), seed) else {
                 o.family = "skipped";
                 return o;
             };
             o.input_bytes = proof.to_bytes().len();
             o.elements = o.input_bytes / 32;
-            o.descr = json!({"family": "statement", "cfg": case.cfg.json(), "promises": promises, "mode": action_name(action), "seeded": seed.is_some()});
+            o.descr = json!({"family": "statement", "cfg": case.cfg.json(), "promises": promises, "mode": action_name(action), "seeded": seed.is_some(),
+                "commitments": (["unrelated points", "one replaced by the identity", "all identity", "all equal", "honest", "honest"][(i / 10) % 6])});
             let tc = case.transcript();
             observe(&mut o, || {
                 let _ = RangeProof::verify_batch(&mut [tc.clone()], std::slice::from_ref(&st2), std::slice::from_ref(&proof), action);
